@@ -1364,3 +1364,11 @@ impl<T> From<Error> for RecvHeaderBlockError<T> {
         RecvHeaderBlockError::State(err)
     }
 }
+
+#[cfg(feature = "verif")]
+impl Recv {
+    pub(super) fn verif_stats(&self) -> (i32, i32, u32, usize) {
+        let (window, available) = self.flow.verif_raw();
+        (window, available, self.in_flight_data, self.buffer.verif_len())
+    }
+}
